@@ -6,7 +6,7 @@ V = os.path.dirname(os.path.dirname(os.path.abspath(__file__)))
 CLAIMED = {
  "C13": dict(
     text="Proof of the share-or-copy machinery. Kani (full i32 domain): function contracts on the real Generation methods, lemmas over them, coherence of the collector's mark test with the cloner's share test on a real one-object heap. Verus (unbounded, bodies extracted every run): Value::generation, Cloner::{new, force_full_clone, deep_clone, deep_clone_inner, deep_clone_array, deep_clone_ptr (visited map keyed by object address; remembered copies are never forgotten)}, Gc::new_child_gc, Thread::can_share_values_with (parent-chain walk with an inductive invariant over a thread tree of any depth), Thread::deep_clone_value, RootedValue::re_root, the vm_push of RootedValue, <Reference as Userdata>::deep_clone, <Lazy as Userdata>::deep_clone, the construction step of the thread tree (Thread::new_thread: parent pointer, shared global state, collector one generation younger), and the transfer sites send / reference set / st::set / lazy store (what is kept is the copy made for the owning thread): a pointer crosses uncopied only into its own heap or a descendant's; into an unrelated thread everything is copied; every pointer-carrying array representation has its elements cloned. Found and repaired the string-array defect.",
-    note="Trusted: env.rs stand-ins; the per-representation helpers deep_clone_str/app and Userdata::deep_clone of other userdata are ASSUMED (deep_clone_data and deep_clone_closure are proved on their bodies: every field / captured variable is cloned in turn) to return new objects of the receiving heap; thread-tree axiom (child = one level deeper, one generation younger, same global state): its per-edge construction step is proved on new_thread's struct literal, the induction over the tree and that nothing re-parents a thread later stay assumed; get_type_info stubbed in the Kani coherence harness. Not under contract: structural equality of copies, lifetime after the sender is dropped, the glue between the transfer-site units (uninterpreted holdable_by, established by the assumed deep_clone_value contract) and the generation rule proved in the clone unit (DESIGN 6.4).",
+    note="Trusted: env.rs stand-ins; the per-representation helper deep_clone_str and Userdata::deep_clone of other userdata are ASSUMED (deep_clone_data, deep_clone_closure and deep_clone_app are proved on their bodies: every field / captured variable is cloned in turn) to return new objects of the receiving heap; thread-tree axiom (child = one level deeper, one generation younger, same global state): its per-edge construction step is proved on new_thread's struct literal, the induction over the tree and that nothing re-parents a thread later stay assumed; get_type_info stubbed in the Kani coherence harness. Not under contract: structural equality of copies, lifetime after the sender is dropped, the glue between the transfer-site units (uninterpreted holdable_by, established by the assumed deep_clone_value contract) and the generation rule proved in the clone unit (DESIGN 6.4).",
     technique="Kani function contracts on compiled code + Verus contracts on mechanically extracted bodies (incl. an inductive loop invariant for the parent-chain walk)",
     design="2/C13"),
  "C17": dict(
